@@ -36,6 +36,24 @@ CHECKS = {
             "Follows dadi's convention that corners are always masked (fold/unfold re-mask them); quick tier restricts 4-D/5-D shapes to "
             'non-decreasing size tuples; mirrored folded spectra are followed for data only.',
             'DESIGN.md §3 C09'),
+    'C10': ('model_checking',
+            'operator extraction on unit spectra x every subset / permutation / merge set (+orderings) of populations + BFS with project/fold for commutation, against explicit Fraction re-indexing',
+            'marginalize, filter_pops, reorder_pops, combine_pops (every ordering of the merge set), combine_two_pops, Misc.combine_pops and '
+            'scramble_pop_ids are run on a complete basis of unit spectra for shapes of 2-6 populations with unequal sample sizes, labelled and '
+            'unlabelled, folded and unfolded, and compared entry by entry (data, mask, labels, folded flag, totals, input untouched) with a '
+            'reference that re-indexes every entry; a BFS of depth 2-3 adds project and fold and compares the implementation along commuting paths.',
+            'Only corner masks (interior masks are documented as ill-defined for marginalisation); quick tier thins the unit basis in 5-D/6-D '
+            '(reported as a cap; thorough is complete); 6-D permutations thinned to 31 of 720.',
+            'DESIGN.md §3 C10'),
+    'C11': ('model_checking',
+            'exhaustive enumeration of all mask-pattern pairs and value-alphabet assignments against a direct lgamma loop',
+            'Every pair of (model mask, data mask) patterns on 5-6 free entries of three shapes (1-3 D), folded and unfolded data, and every '
+            'assignment of the data/model value alphabets to three entries are evaluated with ll, ll_per_bin, ll_multinom, optimal_sfs_scaling, '
+            'optimally_scaled_sfs and both residuals, and compared with a direct loop; maximality over rescaling, scale invariance and Gibbs '
+            'optimality of model=c*data are checked on every member.',
+            'model==0 with data>0 (documented as ignored with a warning) is outside the space; spectra follow the corner-masked convention; '
+            'tolerance 1e-11 relative to the magnitude of the terms.',
+            'DESIGN.md §3 C11'),
 }
 
 NOT_YET = {}
